@@ -1328,3 +1328,46 @@ def check_complete_iteration(ck, rule, prog, body_ids, what, allow=()):
               ("%s iterates %s completely" % (b.short, what)) if not cut else
               ("%s drops elements with `%s` (line %s): part of %s is silently not processed" % (b.short, cut[0][1].callee.method, cut[0][1].line, what)), where=b.where(cut[0][1].line if cut else None))
     return n
+
+
+def error_blocks(body):
+    """blocks that build an error result (Err / None aggregate into _0, from_residual into _0)"""
+    out = set()
+    for bi in body.reach:
+        blk = body.blocks[bi]
+        for st in blk.stmts:
+            if st.k == "assign" and st.place.local == 0 and st.rv["k"] == "agg" and st.rv.get("variant") in ("Err",):
+                out.add(bi)
+        if blk.term.k == "call" and blk.term.callee.method == "from_residual" and blk.term.dest.is_local() and blk.term.dest.local == 0:
+            out.add(bi)
+    return out
+
+
+def success_path_avoiding(body, required_blocks):
+    """True if some path from the entry to a return avoids every block of `required_blocks` and every error block
+    (i.e. the function can SUCCEED without performing the required step)"""
+    avoid = set(required_blocks) | error_blocks(body)
+    if 0 in avoid:
+        return False
+    reach = body.reachable_from(0, avoid_blocks=avoid)
+    return any(e in reach for e in body.exits)
+
+
+def check_required_steps(ck, rule, prog, body, steps):
+    """steps: list of (label, predicate(term) -> bool).  Every success path of `body` must pass a call satisfying each predicate.
+    For calls inside loops the loop header counts (a loop may run zero times)."""
+    loops = body.natural_loops()
+    for label, pred in steps:
+        blocks = set()
+        for bi, t in body.calls():
+            if pred(t):
+                blocks.add(bi)
+                # innermost..outermost loop headers containing the call
+                for h, bl in loops.items():
+                    if bi in bl:
+                        blocks.add(h)
+        if not blocks:
+            ck.ob(rule, "required-step/%s/%s" % (body.short, label), False, "%s never performs the step `%s`" % (body.short, label), where=body.where())
+            continue
+        skip = success_path_avoiding(body, blocks)
+        ck.ob(rule, "required-step/%s/%s" % (body.short, label), not skip, "%s %s" % (body.short, ("performs `%s` on every path that succeeds" % label) if not skip else ("can return successfully WITHOUT `%s` (an early return or a guard skips it)" % label)), where=body.where())
